@@ -51,6 +51,7 @@ func init() {
 	RegisterTxKind("vault.auth", buildVaultAuth)
 	RegisterTxKind("vault.cancel", buildVaultCancel)
 	RegisterTxKind("vault.fund", buildVaultFund)
+	RegisterTxKind("vault.prefund", buildVaultPrefund)
 	RegisterTxKind("vault.withdraw", buildVaultWithdraw)
 	RegisterTxKind("appjunk", buildAppJunk)
 	RegisterBaseExtra(&BaseExtra{
@@ -59,11 +60,24 @@ func init() {
 			"vault.create", "vault.create",
 			"vault.auth", "vault.auth", "vault.auth", "vault.auth", "vault.auth", "vault.auth", "vault.auth", "vault.auth", "vault.auth",
 			"vault.cancel", "vault.cancel",
-			"vault.fund", "vault.fund", "vault.fund",
+			"vault.fund", "vault.fund", "vault.fund", "vault.prefund",
 			"vault.withdraw", "vault.withdraw", "vault.withdraw", "vault.withdraw",
 			"appjunk", "appjunk",
 		},
 		WideArg: true,
+		// A vault address is a function of its creator and the creator's nonce, so it can hold
+		// value before the vault exists: a pre-funding transaction is followed by a block and by a
+		// vault.Create of that creator.
+		Follow: func(r *core.Rand, op *TxOp) []Op {
+			if op.Kind != "vault.prefund" {
+				return nil
+			}
+			return []Op{
+				{K: "block", Block: &BlockOp{Proposer: r.Intn(8), Take: 30, Dt: 1}},
+				{K: "tx", Tx: &TxOp{Kind: "vault.create", From: op.To, To: op.From, Arg: r.Intn(1 << 16), Fee: uint64(r.Range(0, 3))}},
+				{K: "block", Block: &BlockOp{Proposer: r.Intn(8), Take: 30, Dt: 1}},
+			}
+		},
 		Tune: func(r *core.Rand, k *ChainKnobs) {
 			// Funded genesis vaults (single- and multi-signature authorities, withdraw policies), so
 			// that actions are authorised and executed from the first block on; small distinct gas
@@ -536,6 +550,27 @@ func buildVaultFund(w *World, op TxOp, v TxView, def signature.Signer, fee *tran
 	}
 	minXfer := v.StakingParams().MinTransferAmount.ToBigInt().Uint64()
 	return staking.NewTransferTx(nonce, fee, &staking.Transfer{To: to, Amount: resolveAmount(op.Amt, &acct.General.Balance, minXfer)}), def, nil
+}
+
+// buildVaultPrefund: a transfer or a delegation to the address the NEXT vault of signer op.To
+// will have (creator address and the nonce its account will hold when its next transaction, the
+// vault.Create that follows, executes).
+func buildVaultPrefund(w *World, op TxOp, v TxView, def signature.Signer, fee *transaction.Fee) (*transaction.Transaction, signature.Signer, error) {
+	rr := c17Rand(op)
+	creator := w.Signer(op.To).Public()
+	id := v.NextNonce(creator) + 1
+	if rr.Chance(1, 6) {
+		id-- // (the address of the nonce itself: never a vault address of that creator)
+	}
+	to := vault.NewVaultAddress(staking.NewAddress(creator), id)
+	acct := v.Account(staking.NewAddress(def.Public()))
+	nonce := c17Nonce(v, op, def)
+	params := v.StakingParams()
+	amt := rr.Range(20, 300)
+	if rr.Chance(1, 3) {
+		return staking.NewAddEscrowTx(nonce, fee, &staking.Escrow{Account: to, Amount: resolveAmount(amt, &acct.General.Balance, params.MinDelegationAmount.ToBigInt().Uint64())}), def, nil
+	}
+	return staking.NewTransferTx(nonce, fee, &staking.Transfer{To: to, Amount: resolveAmount(amt, &acct.General.Balance, params.MinTransferAmount.ToBigInt().Uint64())}), def, nil
 }
 
 // buildVaultWithdraw: staking.Withdraw from a vault's account by a signer, mostly one that has a
